@@ -72,7 +72,7 @@ def whole : List Ins := [
     (`fixed`, displacements moved by −0x400) — and `fixOriginFuncToTrampoline` writes the RAW original bytes instead. -/
 theorem F27_whole_copy_is_raw :
     ∃ fixed data, fixRelativeAddr Cfg.fixed 0x500000#64 0x500400#64 15 ((13 : Nat) : Int) .eof whole = .ok (fixed, 15) ∧
-      fixOrigin Cfg.fixed 0x500000#64 0x500400#64 200 13 whole = .ok data ∧ data = progBytes whole ∧ fixed ≠ data := by
+      fixOrigin Cfg.fixed 0x500000#64 0x500400#64 200 13 whole = .ok data ∧ data = fixed ∧ fixed ≠ progBytes whole := by
   refine ⟨_, _, rfl, rfl, rfl, by decide⟩
 
 /-- `ADDB AL,(AX)` (00 00), then `PUSHQ BP; MOVQ SP,BP; SUBQ $0x18,SP; 8×NOP; RET` -/
